@@ -318,3 +318,73 @@ def reqlife_pipeline(tier):
         work.cleanup()
     cache_put(key, res)
     return res
+
+
+# ------------------------------------------------------------------ repliers over time, client + server (C10)
+PL_TIERS = {"quick": {"cases": 120}, "thorough": {"cases": 4000}}
+
+
+def replife_pipeline(tier):
+    """ReplierLife.tla (bound / standby / take-over; liveness) model-checked; its start/stop/request schedules
+    replayed with real repliers (client keep-alive included) against the real server; Trace_ReplierLife validates."""
+    key = "replife-%s-%s-%d" % (tier, tree_key(), seed())
+    c = cache_get(key)
+    if c is not None:
+        log("[replife] reusing pipeline result computed %.0fs ago for the same tree/seed" % (time.time() - c["at"]))
+        c["cached"] = True
+        return c
+    build_harness()
+    T = PL_TIERS[tier]
+    work = Work("replife-%s" % tier)
+    t0 = time.time()
+    res = {"at": time.time(), "cached": False}
+    try:
+        m = tlc("ReplierLife", "MC_ReplierLife.cfg", work, workers=4, timeout=1800, coverage=True)
+        res["models"] = [{"module": "ReplierLife", "cfg": "MC_ReplierLife.cfg", "states": m.distinct, "transitions": m.generated,
+                          "ok": m.ok, "violated": m.violated or m.errors[:2], "wall_s": round(m.wall, 1)}]
+        res["model_ok"] = m.ok
+        res["model_tail"] = "" if m.ok else m.out[-3000:]
+        g = tlc("ReplierLifeGen", "MC_ReplierLifeGen.cfg", work, workers=8, timeout=1800)
+        seen, scheds = set(), []
+        for s in g.sched_lines():
+            k = json.dumps(s)
+            if k not in seen:
+                seen.add(k)
+                scheds.append(s)
+        total = len(scheds)
+        rnd = random.Random(seed())
+        rnd.shuffle(scheds)
+        scheds = scheds[:T["cases"]]
+        sf = work.path("pl-sched.jsonl")
+        with open(sf, "w") as f:
+            for i, st in enumerate(scheds):
+                f.write(json.dumps({"id": "pl-%d" % i, "steps": st}) + "\n")
+        trace = work.path("trace-replife.ndjson")
+        p = sh([os.path.join(BIN, "e2e"), "replife", "--cases", sf, "--out", trace, "--seed", str(seed()), "--par", "16"], timeout=7200)
+        summ = json.loads(p.stdout.strip().splitlines()[-1])
+        r = tlc("Trace_ReplierLife", "Trace_ReplierLife.cfg", work, workers=1, trace=trace, timeout=3600, xmx="8g")
+        if not r.ok:
+            raise ToolError("trace validation (Trace_ReplierLife) did not complete:\n%s" % r.out[-3000:])
+        lines = [x for x in open(trace).read().split("\n") if x]
+        starts = {}
+        for i, x in enumerate(lines):
+            if x.startswith('{"ev":"case"'):
+                starts[json.loads(x)["run"]] = i
+        viols = []
+        for v in r.viol:
+            v = dict(v)
+            b = starts.get(v["run"], max(0, v["line"] - 40))
+            v["schedule"] = {"id": "pl-%d" % (v["run"] - 1), "steps": scheds[v["run"] - 1]} if 0 < v["run"] <= len(scheds) else None
+            v["trace"] = [json.loads(x) for x in lines[b:v["line"]]][-60:]
+            viols.append(v)
+        takeovers = sum(1 for x in lines if '"ev":"result"' in x and '"probe":true' in x)
+        res.update({"schedules_distinct": total, "schedules_used": len(scheds), "runs": summ["runs"], "events": summ["events"],
+                    "answers_checked": sum(1 for x in lines if '"ev":"result"' in x), "probes_after_changes": takeovers,
+                    "viol": viols[:60], "n_viol": len(viols), "inconclusive": r.notes[:10], "n_inconclusive": len(r.notes),
+                    "sample": [json.loads(x) for x in lines[:14]], "wall_s": round(time.time() - t0, 1)})
+        log("[replife] ReplierLife %d states ok=%s; %d of %d schedules with real repliers: %d events, %d answers attributed; flagged %d, notes %d" % (
+            m.distinct, m.ok, len(scheds), total, summ["events"], res["answers_checked"], len(viols), len(r.notes)))
+    finally:
+        work.cleanup()
+    cache_put(key, res)
+    return res
